@@ -65,7 +65,7 @@ Fixpoint ms_loop (fuel : nat) (verify_op : bool) (st : list bytes) (script : byt
       if sigs_count >? keys_count then (if verify_op then fail else Ok false)
       else ms_loop f verify_op st script isig ikey sigs_count keys_count
   end.
-Definition check_multisig (opcode : Z) (script : bytes) (s : state) : res state :=
+Definition check_multisig (vfy : bool) (script : bytes) (s : state) : res state :=
   let st := stack s in
   let i := 1 in
   do _ <- (if len st <? i then fail else Ok tt);
@@ -82,7 +82,7 @@ Definition check_multisig (opcode : Z) (script : bytes) (s : state) : res state 
   let i := i + 1 in let isig := i in let i := i + sigs_count in
   do _ <- (if len st <? i - 1 then fail else if len st <? i then fail else Ok tt);
   do script' <- ms_fad (Z.to_nat sigs_count) isig st script 0;
-  do success <- ms_loop (S (Z.to_nat keys_count)) (opcode =? OP_CHECKMULTISIGVERIFY) st script'
+  do success <- ms_loop (S (Z.to_nat keys_count)) vfy st script'
                         isig ikey sigs_count keys_count;
   do st1 <- pop_n (Z.to_nat (i - 1)) st;
   do _ <- (if negb (is_nil st1) && f_nulldummy fl
@@ -90,7 +90,7 @@ Definition check_multisig (opcode : Z) (script : bytes) (s : state) : res state 
            else Ok tt);
   do dr <- py_pop st1;
   let st2 := snd dr in
-  let st3 := if opcode =? OP_CHECKMULTISIG then (if success then push st2 [x01] else push st2 [])
+  let st3 := if negb vfy then (if success then push st2 [x01] else push st2 [])
              else st2 in
   Ok {| stack := st3; altstack := altstack s; vfExec := vfExec s; pbegincodehash := pbegincodehash s; nOpCount := nop |}.
 
@@ -135,6 +135,159 @@ Definition bin_op (opcode : Z) (st : list bytes) : res (list bytes) :=
 Definition mem (x : Z) (l : list Z) : bool := existsb (Z.eqb x) l.
 Definition check_exec (vf : list bool) : bool := forallb (fun b => b) vf.
 
+(* the elif chain of _EvalScript, in its order: which branch an opcode selects *)
+Definition kind_of (sop : Z) : kind :=
+  if (sop =? OP_1NEGATE) || ((sop >=? OP_1) && (sop <=? OP_16)) then KSmall
+  else if mem sop ISA_BINOP then KBin
+  else if mem sop ISA_UNOP then KUn
+  else if sop =? OP_2DROP then K2Drop
+  else if sop =? OP_2DUP then K2Dup
+  else if sop =? OP_2OVER then K2Over
+  else if sop =? OP_2ROT then K2Rot
+  else if sop =? OP_2SWAP then K2Swap
+  else if sop =? OP_3DUP then K3Dup
+  else if (sop =? OP_CHECKMULTISIG) || (sop =? OP_CHECKMULTISIGVERIFY) then KMultisig (sop =? OP_CHECKMULTISIGVERIFY)
+  else if (sop =? OP_CHECKSIG) || (sop =? OP_CHECKSIGVERIFY) then KChecksig (sop =? OP_CHECKSIGVERIFY)
+  else if sop =? OP_CODESEPARATOR then KCodesep
+  else if sop =? OP_DEPTH then KDepth
+  else if sop =? OP_DROP then KDrop
+  else if sop =? OP_DUP then KDup
+  else if sop =? OP_ELSE then KElse
+  else if sop =? OP_ENDIF then KEndif
+  else if sop =? OP_EQUAL then KEqual
+  else if sop =? OP_EQUALVERIFY then KEqualVerify
+  else if sop =? OP_FROMALTSTACK then KFromAlt
+  else if sop =? OP_HASH160 then KHash160
+  else if sop =? OP_HASH256 then KHash256
+  else if (sop =? OP_IF) || (sop =? OP_NOTIF) then KIf (sop =? OP_NOTIF)
+  else if sop =? OP_IFDUP then KIfdup
+  else if sop =? OP_NIP then KNip
+  else if sop =? OP_NOP then KNop
+  else if (sop >=? OP_NOP1) && (sop <=? OP_NOP10) then KNopN
+  else if sop =? OP_OVER then KOver
+  else if (sop =? OP_PICK) || (sop =? OP_ROLL) then KPickRoll (sop =? OP_ROLL)
+  else if sop =? OP_RETURN then KReturn
+  else if sop =? OP_RIPEMD160 then KRipemd
+  else if sop =? OP_ROT then KRot
+  else if sop =? OP_SIZE then KSize
+  else if sop =? OP_SHA1 then KSha1
+  else if sop =? OP_SHA256 then KSha256
+  else if sop =? OP_SWAP then KSwap
+  else if sop =? OP_TOALTSTACK then KToAlt
+  else if sop =? OP_TUCK then KTuck
+  else if sop =? OP_VERIFY then KVerify
+  else if sop =? OP_WITHIN then KWithin
+  else KBad.
+
+(* the body of the selected branch *)
+Definition exec (scriptIn : bytes) (s : state) (o : sop) (k : kind) : res state :=
+  let sop := sop_opcode o in
+  let fExec := check_exec (vfExec s) in
+  let st := stack s in
+  let ret (st' : list bytes) : res state := Ok (set_stack s st') in
+  let rets (r : res (list bytes)) : res state := do st' <- r; ret st' in
+  match k with
+  | KSmall => do v <- bn2vch (sop - (OP_1 - 1)); ret (push st v)
+  | KBin => rets (bin_op sop st)
+  | KUn => rets (unary_op sop st)
+  | K2Drop => do _ <- check_args st 2; rets (pop_n 2 st)
+  | K2Dup => do _ <- check_args st 2; do v1 <- py_nth st (-2); do v2 <- py_nth st (-1); ret (push (push st v1) v2)
+  | K2Over => do _ <- check_args st 4; do v1 <- py_nth st (-4); do v2 <- py_nth st (-3); ret (push (push st v1) v2)
+  | K2Rot =>
+      do _ <- check_args st 6; do v1 <- py_nth st (-6); do v2 <- py_nth st (-5);
+      do st1 <- py_del st (-6); do st2 <- py_del st1 (-5); ret (push (push st2 v1) v2)
+  | K2Swap =>
+      do _ <- check_args st 4;
+      do tmp <- py_nth st (-4); do a <- py_nth st (-2); do st1 <- py_set st (-4) a; do st2 <- py_set st1 (-2) tmp;
+      do tmp' <- py_nth st2 (-3); do b <- py_nth st2 (-1); do st3 <- py_set st2 (-3) b; do st4 <- py_set st3 (-1) tmp';
+      ret st4
+  | K3Dup =>
+      do _ <- check_args st 3; do v1 <- py_nth st (-3); do v2 <- py_nth st (-2); do v3 <- py_nth st (-1);
+      ret (push (push (push st v1) v2) v3)
+  | KMultisig vfy => check_multisig vfy (py_slice scriptIn (pbegincodehash s) (lenZ scriptIn)) s
+  | KChecksig vfy =>
+      do _ <- check_args st 2;
+      do vchPubKey <- py_nth st (-1); do vchSig <- py_nth st (-2);
+      let tmpScript := py_slice scriptIn (pbegincodehash s) (lenZ scriptIn) in
+      do p <- push_of vchSig;
+      do tmpScript' <- find_and_delete tmpScript p;
+      do ok <- check_sig vchSig vchPubKey tmpScript';
+      if negb ok && vfy then fail
+      else do st' <- pop_n 2 st;
+           if ok then (if negb vfy then ret (push st' [x01]) else ret st')
+           else ret (push st' [])
+  | KCodesep =>
+      Ok {| stack := st; altstack := altstack s; vfExec := vfExec s; pbegincodehash := sop_idx o; nOpCount := nOpCount s |}
+  | KDepth => do v <- bn2vch (len st); ret (push st v)
+  | KDrop => do _ <- check_args st 1; rets (pop_n 1 st)
+  | KDup => do _ <- check_args st 1; do v <- py_nth st (-1); ret (push st v)
+  | KElse =>
+      if len (vfExec s) =? 0 then fail
+      else do b <- py_nth (vfExec s) (-1); do vf <- py_set (vfExec s) (-1) (negb b);
+           Ok {| stack := st; altstack := altstack s; vfExec := vf; pbegincodehash := pbegincodehash s; nOpCount := nOpCount s |}
+  | KEndif =>
+      if len (vfExec s) =? 0 then fail
+      else do pr <- py_pop (vfExec s);
+           Ok {| stack := st; altstack := altstack s; vfExec := snd pr; pbegincodehash := pbegincodehash s; nOpCount := nOpCount s |}
+  | KEqual =>
+      do _ <- check_args st 2; do p1 <- py_pop st; do p2 <- py_pop (snd p1);
+      ret (push (snd p2) (if bytes_eqb (fst p1) (fst p2) then [x01] else []))
+  | KEqualVerify =>
+      do _ <- check_args st 2; do v1 <- py_nth st (-1); do v2 <- py_nth st (-2);
+      if bytes_eqb v1 v2 then rets (pop_n 2 st) else fail
+  | KFromAlt =>
+      if len (altstack s) <? 1 then fail
+      else do pr <- py_pop (altstack s);
+           Ok {| stack := push st (fst pr); altstack := snd pr; vfExec := vfExec s; pbegincodehash := pbegincodehash s; nOpCount := nOpCount s |}
+  | KHash160 => do _ <- check_args st 1; do pr <- py_pop st; ret (push (snd pr) (ripemd160 (sha256 (fst pr))))
+  | KHash256 => do _ <- check_args st 1; do pr <- py_pop st; ret (push (snd pr) (sha256 (sha256 (fst pr))))
+  | KIf neg =>
+      do r <- (if fExec then
+                 do _ <- check_args st 1; do pr <- py_pop st;
+                 let v := cast_to_bool (fst pr) in
+                 Ok (snd pr, if neg then negb v else v)
+               else Ok (st, false));
+      Ok {| stack := fst r; altstack := altstack s; vfExec := vfExec s ++ [snd r]; pbegincodehash := pbegincodehash s; nOpCount := nOpCount s |}
+  | KIfdup => do _ <- check_args st 1; do vch <- py_nth st (-1); if cast_to_bool vch then ret (push st vch) else ret st
+  | KNip => do _ <- check_args st 2; rets (py_del st (-2))
+  | KNop => ret st
+  | KNopN => if f_discourage_nops fl then fail else ret st
+  | KOver => do _ <- check_args st 2; do vch <- py_nth st (-2); ret (push st vch)
+  | KPickRoll roll =>
+      do _ <- check_args st 2; do pr <- py_pop st; let st1 := snd pr in
+      do n <- cast_to_bignum (fst pr);
+      if (n <? 0) || (n >=? len st1) then fail
+      else do vch <- py_nth st1 (- n - 1);
+           do st2 <- (if roll then py_del st1 (- n - 1) else Ok st1);
+           ret (push st2 vch)
+  | KReturn => fail
+  | KRipemd => do _ <- check_args st 1; do pr <- py_pop st; ret (push (snd pr) (ripemd160 (fst pr)))
+  | KRot =>
+      do _ <- check_args st 3;
+      do tmp <- py_nth st (-3); do a <- py_nth st (-2); do st1 <- py_set st (-3) a; do st2 <- py_set st1 (-2) tmp;
+      do tmp' <- py_nth st2 (-2); do b <- py_nth st2 (-1); do st3 <- py_set st2 (-2) b; do st4 <- py_set st3 (-1) tmp';
+      ret st4
+  | KSize => do _ <- check_args st 1; do x <- py_nth st (-1); do v <- bn2vch (lenZ x); ret (push st v)
+  | KSha1 => do _ <- check_args st 1; do pr <- py_pop st; ret (push (snd pr) (sha1 (fst pr)))
+  | KSha256 => do _ <- check_args st 1; do pr <- py_pop st; ret (push (snd pr) (sha256 (fst pr)))
+  | KSwap =>
+      do _ <- check_args st 2;
+      do tmp <- py_nth st (-2); do a <- py_nth st (-1); do st1 <- py_set st (-2) a; do st2 <- py_set st1 (-1) tmp; ret st2
+  | KToAlt =>
+      do _ <- check_args st 1; do pr <- py_pop st;
+      Ok {| stack := snd pr; altstack := altstack s ++ [fst pr]; vfExec := vfExec s; pbegincodehash := pbegincodehash s; nOpCount := nOpCount s |}
+  | KTuck => do _ <- check_args st 2; do vch <- py_nth st (-1); ret (py_insert st (len st - 2) vch)
+  | KVerify => do _ <- check_args st 1; do x <- py_nth st (-1); if cast_to_bool x then rets (pop_n 1 st) else fail
+  | KWithin =>
+      do _ <- check_args st 3;
+      do x3 <- py_nth st (-1); do bn3 <- cast_to_bignum x3;
+      do x2 <- py_nth st (-2); do bn2 <- cast_to_bignum x2;
+      do x1 <- py_nth st (-3); do bn1 <- cast_to_bignum x1;
+      do st' <- pop_n 3 st;
+      ret (push st' (if (bn2 <=? bn1) && (bn1 <? bn3) then [x01] else []))
+  | KBad => fail
+  end.
+
 (* one iteration of the `for (sop, sop_data, sop_pc) in scriptIn.raw_iter()` loop *)
 Definition step (scriptIn : bytes) (s : state) (o : sop) : res state :=
   let sop := sop_opcode o in
@@ -146,126 +299,16 @@ Definition step (scriptIn : bytes) (s : state) (o : sop) : res state :=
              else Ok {| stack := stack s; altstack := altstack s; vfExec := vfExec s;
                         pbegincodehash := pbegincodehash s; nOpCount := n |}
            else Ok s);
-  let st := stack s in
-  let ret (st' : list bytes) : res state := Ok (set_stack s st') in
-  let rets (r : res (list bytes)) : res state := do st' <- r; ret st' in
   do s' <-
    (if sop <=? OP_PUSHDATA4 then
       match sop_data o with
       | None => Err TypeError                     (* len(None): cannot happen, raw_iter yields data here *)
       | Some d =>
           if lenZ d >? MAX_SCRIPT_ELEMENT_SIZE then fail
-          else if fExec then ret (push st d)
+          else if fExec then Ok (set_stack s (push (stack s) d))
           else Ok s
       end
-    else if fExec || ((OP_IF <=? sop) && (sop <=? OP_ENDIF)) then
-      if (sop =? OP_1NEGATE) || ((sop >=? OP_1) && (sop <=? OP_16)) then
-        do v <- bn2vch (sop - (OP_1 - 1)); ret (push st v)
-      else if mem sop ISA_BINOP then rets (bin_op sop st)
-      else if mem sop ISA_UNOP then rets (unary_op sop st)
-      else if sop =? OP_2DROP then do _ <- check_args st 2; rets (pop_n 2 st)
-      else if sop =? OP_2DUP then
-        do _ <- check_args st 2; do v1 <- py_nth st (-2); do v2 <- py_nth st (-1); ret (push (push st v1) v2)
-      else if sop =? OP_2OVER then
-        do _ <- check_args st 4; do v1 <- py_nth st (-4); do v2 <- py_nth st (-3); ret (push (push st v1) v2)
-      else if sop =? OP_2ROT then
-        do _ <- check_args st 6; do v1 <- py_nth st (-6); do v2 <- py_nth st (-5);
-        do st1 <- py_del st (-6); do st2 <- py_del st1 (-5); ret (push (push st2 v1) v2)
-      else if sop =? OP_2SWAP then
-        do _ <- check_args st 4;
-        do tmp <- py_nth st (-4); do a <- py_nth st (-2); do st1 <- py_set st (-4) a; do st2 <- py_set st1 (-2) tmp;
-        do tmp' <- py_nth st2 (-3); do b <- py_nth st2 (-1); do st3 <- py_set st2 (-3) b; do st4 <- py_set st3 (-1) tmp';
-        ret st4
-      else if sop =? OP_3DUP then
-        do _ <- check_args st 3; do v1 <- py_nth st (-3); do v2 <- py_nth st (-2); do v3 <- py_nth st (-1);
-        ret (push (push (push st v1) v2) v3)
-      else if (sop =? OP_CHECKMULTISIG) || (sop =? OP_CHECKMULTISIGVERIFY) then
-        check_multisig sop (py_slice scriptIn (pbegincodehash s) (lenZ scriptIn)) s
-      else if (sop =? OP_CHECKSIG) || (sop =? OP_CHECKSIGVERIFY) then
-        do _ <- check_args st 2;
-        do vchPubKey <- py_nth st (-1); do vchSig <- py_nth st (-2);
-        let tmpScript := py_slice scriptIn (pbegincodehash s) (lenZ scriptIn) in
-        do p <- push_of vchSig;
-        do tmpScript' <- find_and_delete tmpScript p;
-        do ok <- check_sig vchSig vchPubKey tmpScript';
-        if negb ok && (sop =? OP_CHECKSIGVERIFY) then fail
-        else do st' <- pop_n 2 st;
-             if ok then (if negb (sop =? OP_CHECKSIGVERIFY) then ret (push st' [x01]) else ret st')
-             else ret (push st' [])
-      else if sop =? OP_CODESEPARATOR then
-        Ok {| stack := st; altstack := altstack s; vfExec := vfExec s; pbegincodehash := sop_idx o; nOpCount := nOpCount s |}
-      else if sop =? OP_DEPTH then do v <- bn2vch (len st); ret (push st v)
-      else if sop =? OP_DROP then do _ <- check_args st 1; rets (pop_n 1 st)
-      else if sop =? OP_DUP then do _ <- check_args st 1; do v <- py_nth st (-1); ret (push st v)
-      else if sop =? OP_ELSE then
-        if len (vfExec s) =? 0 then fail
-        else do b <- py_nth (vfExec s) (-1); do vf <- py_set (vfExec s) (-1) (negb b);
-             Ok {| stack := st; altstack := altstack s; vfExec := vf; pbegincodehash := pbegincodehash s; nOpCount := nOpCount s |}
-      else if sop =? OP_ENDIF then
-        if len (vfExec s) =? 0 then fail
-        else do pr <- py_pop (vfExec s);
-             Ok {| stack := st; altstack := altstack s; vfExec := snd pr; pbegincodehash := pbegincodehash s; nOpCount := nOpCount s |}
-      else if sop =? OP_EQUAL then
-        do _ <- check_args st 2; do p1 <- py_pop st; do p2 <- py_pop (snd p1);
-        ret (push (snd p2) (if bytes_eqb (fst p1) (fst p2) then [x01] else []))
-      else if sop =? OP_EQUALVERIFY then
-        do _ <- check_args st 2; do v1 <- py_nth st (-1); do v2 <- py_nth st (-2);
-        if bytes_eqb v1 v2 then rets (pop_n 2 st) else fail
-      else if sop =? OP_FROMALTSTACK then
-        if len (altstack s) <? 1 then fail
-        else do pr <- py_pop (altstack s);
-             Ok {| stack := push st (fst pr); altstack := snd pr; vfExec := vfExec s; pbegincodehash := pbegincodehash s; nOpCount := nOpCount s |}
-      else if sop =? OP_HASH160 then do _ <- check_args st 1; do pr <- py_pop st; ret (push (snd pr) (ripemd160 (sha256 (fst pr))))
-      else if sop =? OP_HASH256 then do _ <- check_args st 1; do pr <- py_pop st; ret (push (snd pr) (sha256 (sha256 (fst pr))))
-      else if (sop =? OP_IF) || (sop =? OP_NOTIF) then
-        do r <- (if fExec then
-                   do _ <- check_args st 1; do pr <- py_pop st;
-                   let v := cast_to_bool (fst pr) in
-                   Ok (snd pr, if sop =? OP_NOTIF then negb v else v)
-                 else Ok (st, false));
-        Ok {| stack := fst r; altstack := altstack s; vfExec := vfExec s ++ [snd r]; pbegincodehash := pbegincodehash s; nOpCount := nOpCount s |}
-      else if sop =? OP_IFDUP then
-        do _ <- check_args st 1; do vch <- py_nth st (-1); if cast_to_bool vch then ret (push st vch) else ret st
-      else if sop =? OP_NIP then do _ <- check_args st 2; rets (py_del st (-2))
-      else if sop =? OP_NOP then ret st
-      else if (sop >=? OP_NOP1) && (sop <=? OP_NOP10) then
-        if f_discourage_nops fl then fail else ret st
-      else if sop =? OP_OVER then do _ <- check_args st 2; do vch <- py_nth st (-2); ret (push st vch)
-      else if (sop =? OP_PICK) || (sop =? OP_ROLL) then
-        do _ <- check_args st 2; do pr <- py_pop st; let st1 := snd pr in
-        do n <- cast_to_bignum (fst pr);
-        if (n <? 0) || (n >=? len st1) then fail
-        else do vch <- py_nth st1 (- n - 1);
-             do st2 <- (if sop =? OP_ROLL then py_del st1 (- n - 1) else Ok st1);
-             ret (push st2 vch)
-      else if sop =? OP_RETURN then fail
-      else if sop =? OP_RIPEMD160 then do _ <- check_args st 1; do pr <- py_pop st; ret (push (snd pr) (ripemd160 (fst pr)))
-      else if sop =? OP_ROT then
-        do _ <- check_args st 3;
-        do tmp <- py_nth st (-3); do a <- py_nth st (-2); do st1 <- py_set st (-3) a; do st2 <- py_set st1 (-2) tmp;
-        do tmp' <- py_nth st2 (-2); do b <- py_nth st2 (-1); do st3 <- py_set st2 (-2) b; do st4 <- py_set st3 (-1) tmp';
-        ret st4
-      else if sop =? OP_SIZE then do _ <- check_args st 1; do x <- py_nth st (-1); do v <- bn2vch (lenZ x); ret (push st v)
-      else if sop =? OP_SHA1 then do _ <- check_args st 1; do pr <- py_pop st; ret (push (snd pr) (sha1 (fst pr)))
-      else if sop =? OP_SHA256 then do _ <- check_args st 1; do pr <- py_pop st; ret (push (snd pr) (sha256 (fst pr)))
-      else if sop =? OP_SWAP then
-        do _ <- check_args st 2;
-        do tmp <- py_nth st (-2); do a <- py_nth st (-1); do st1 <- py_set st (-2) a; do st2 <- py_set st1 (-1) tmp; ret st2
-      else if sop =? OP_TOALTSTACK then
-        do _ <- check_args st 1; do pr <- py_pop st;
-        Ok {| stack := snd pr; altstack := altstack s ++ [fst pr]; vfExec := vfExec s; pbegincodehash := pbegincodehash s; nOpCount := nOpCount s |}
-      else if sop =? OP_TUCK then
-        do _ <- check_args st 2; do vch <- py_nth st (-1); ret (py_insert st (len st - 2) vch)
-      else if sop =? OP_VERIFY then
-        do _ <- check_args st 1; do x <- py_nth st (-1); if cast_to_bool x then rets (pop_n 1 st) else fail
-      else if sop =? OP_WITHIN then
-        do _ <- check_args st 3;
-        do x3 <- py_nth st (-1); do bn3 <- cast_to_bignum x3;
-        do x2 <- py_nth st (-2); do bn2 <- cast_to_bignum x2;
-        do x1 <- py_nth st (-3); do bn1 <- cast_to_bignum x1;
-        do st' <- pop_n 3 st;
-        ret (push st' (if (bn2 <=? bn1) && (bn1 <? bn3) then [x01] else []))
-      else fail
+    else if fExec || ((OP_IF <=? sop) && (sop <=? OP_ENDIF)) then exec scriptIn s o (kind_of sop)
     else Ok s);
   if len (stack s') + len (altstack s') >? MAX_STACK_ITEMS then fail else Ok s'.
 
